@@ -3,7 +3,7 @@
 // oracle for the property.
 //
 // op line (one distributed case):
-//     np=<P> num=<d|c|s|l> ord=<a|f> del=<m|r> [re=<0|s|d>] [comm=<w|d|r0.r1...>] [glob=<i|l>] : <g>=<h>,<h>,...;<g>=<h>,...;...
+//     np=<P> num=<d|c|s|l> ord=<a|f> del=<m|r> [re=<0|s|d|e>] [comm=<w|d|r0.r1...>] [glob=<i|l>] : <g>=<h>,<h>,...;<g>=<h>,...;...
 //   one segment per global index g (decimal, distinct); holder token <h> = <rank><attr><status>
 //     rank    the process as numbered by the communicator the RemoteIndices live on (see comm=)
 //     attr    o|v|c        owner / overlap / copy  (enum values 0/1/2)
@@ -25,8 +25,9 @@
 //        m = RemoteIndexListModifier<.,.,true>::remove + modifier.repairLocalIndexPointers(), r = SLList modify
 //        iterators + Dune::repairLocalIndexPointers as dune/common/parallel/test/syncertest.cc does;
 //        re (second round, default 0): s = sync again with the same IndicesSyncer object; d = first delete the status-d
-//        copies again (those the first sync restored), then sync with a new IndicesSyncer object.  Nothing
-//        synchronises the processes between the two rounds.
+//        copies again (those the first sync restored), then sync with a new IndicesSyncer object; e = like d but with
+//        the IndicesSyncer object of the first round (second use of an object whose index set and remote indices
+//        were modified in between).  Nothing synchronises the processes between the two rounds.
 //        comm (default w): the communicator handed to RemoteIndices (and so to the syncer).  P is always the size of
 //            MPI_COMM_WORLD.  w = MPI_COMM_WORLD itself; d = MPI_Comm_dup of it (same numbering, other context);
 //            r0.r1...rk-1 (distinct world ranks) = MPI_Comm_split: the communicator consists of exactly these world
@@ -99,7 +100,9 @@ struct Case {
   bool stateful() const { return num == 's' || num == 'l'; }
   bool fixed = false;
   char del = 'r';
-  char re = '0';    // second round: 0 none, s sync again, d delete the status-d copies again and sync again
+  char re = '0';    // second round: 0 none, s sync again, d delete the status-d copies again and sync again with a new
+                    // IndicesSyncer object, e = the same with the IndicesSyncer object of the first round
+  bool redel() const { return re == 'd' || re == 'e'; }
   std::vector<Tok> toks;
   bool ok = false;
 };
@@ -116,7 +119,7 @@ static Case parse(const std::string& line) {
     else if (w == "ord=a" && !hord) { c.fixed = false; hord = true; }
     else if (w == "ord=f" && !hord) { c.fixed = true; hord = true; }
     else if ((w == "del=m" || w == "del=r") && !hdel) { c.del = w[4]; hdel = true; }
-    else if ((w == "re=0" || w == "re=s" || w == "re=d") && !hre && hdel && !hcomm && !hglob) { c.re = w[3]; hre = true; }
+    else if ((w == "re=0" || w == "re=s" || w == "re=d" || w == "re=e") && !hre && hdel && !hcomm && !hglob) { c.re = w[3]; hre = true; }
     else if (w.rfind("comm=", 0) == 0 && !hcomm && hdel && hn && !hglob) {
       std::string v = w.substr(5);
       hcomm = true;
@@ -559,14 +562,16 @@ static Result run(const Case& c, const std::string& line, MPI_Comm comm, const i
     static const int DELAY[] = {0, 0, 0, 100, 300, 600, 1000, 1500};
     int d = DELAY[jitter.below(8)];
     if (d && c.np > 1) usleep(d);
-    // re=s syncs again with the same IndicesSyncer object, re=d (the index set was modified in between) with a new one
-    if (!syncer || c.re != 's') syncer.reset(new Dune::IndicesSyncer<PIS>(is, ri));
+    // re=s and re=e sync again with the same IndicesSyncer object, re=d (the index set was modified in between) with a new one
+    // re=e: the same object again although index set and remote indices were modified in between
+    if (!syncer || c.re == 'd') syncer.reset(new Dune::IndicesSyncer<PIS>(is, ri));
+    // arrival order through the one-argument call (default argument of useFixedOrder), fixed order explicitly
     if (c.num == 'c') {
       CustomNumberer num;
-      syncer->sync(num, c.fixed);
-    } else if (c.stateful())
-      syncer->sync(counting, c.fixed);
-    else
+      if (c.fixed) syncer->sync(num, true); else syncer->sync(num);
+    } else if (c.stateful()) {
+      if (c.fixed) syncer->sync(counting, true); else syncer->sync(counting);
+    } else
       syncer->sync();
   };
   auto inserted = [&](const World& before, const World& after) {
@@ -612,9 +617,9 @@ static Result run(const Case& c, const std::string& line, MPI_Comm comm, const i
   // 5. second round
   World pre2, want2;
   if (c.re != '0') {
-    pre2 = c.re == 'd' ? deleted(c, want) : want;
+    pre2 = c.redel() ? deleted(c, want) : want;
     want2 = closure(pre2);
-    if (c.re == 'd') {
+    if (c.redel()) {
       std::set<int> gs2;
       for (auto& g : delGs) if (want[rank].held.count(g)) gs2.insert(g);
       std::set<int> present;
@@ -701,6 +706,7 @@ static Result run(const Case& c, const std::string& line, MPI_Comm comm, const i
     if (del) stat(std::string("delete_via_") + (c.del == 'm' ? "modifier" : "sllist"));
     if (c.re == 's') stat("second_round_sync_again");
     if (c.re == 'd') stat("second_round_delete_and_sync");
+    if (c.re == 'e') stat("second_round_delete_and_sync_same_object");
     if (c.re != '0') { stat("second_round_indices_inserted", restored2); stat("second_round_new_neighbours", newnb2); }
     if (trivial) stat("trivial");
     if (c.comm == 'w') stat("comm_world");
@@ -800,7 +806,7 @@ static std::string gen(Rng& r, long, const Args& a) {
   char num = nk < 3 ? 'd' : nk < 5 ? 'c' : nk < 8 ? 's' : 'l';
   bool fixed = num != 'd' && r.coin(1, num == 'c' ? 3 : 2);
   int rk = (int)r.below(20);
-  char re = rk < 12 ? '0' : rk < 15 ? 's' : 'd';
+  char re = rk < 12 ? '0' : rk < 15 ? 's' : rk < 18 ? 'd' : 'e';
   os << "np=" << wsize << " num=" << num << " ord=" << (fixed ? "f" : "a") << " del=" << (r.coin() ? "m" : "r");
   if (re != '0' || r.coin(1, 8)) os << " re=" << re;
   if (!commTok.empty()) os << " " << commTok;
